@@ -70,7 +70,7 @@ inductive Post where
 deriving DecidableEq, Repr, Inhabited
 
 inductive DecOp where
-  | number (len : Nat) (signed : Bool) (res mn mx : Lit) (post : Post)
+  | number (len : Nat) (signed : Bool) (res mn mx ofs : Lit) (post : Post)   -- ofs: the optional 8th argument (database Offset), 0 when absent
   | lookup (len : Nat) (enum : String)
   | bitLookup (len : Nat) (enum : String)
   | rawInt (len : Nat)
@@ -131,7 +131,7 @@ deriving DecidableEq, Repr, Inhabited
 /-! ### encoders -/
 
 inductive EncKind where
-  | number (bits : Nat) (signed : Bool) (res : Lit)
+  | number (bits : Nat) (signed : Bool) (res ofs : Lit)
   | reserved
   | float
   | lookup (enum : String)
